@@ -301,14 +301,28 @@ def _const_bytes_through(body, o, depth=8):
             if (nm.endswith("ops::Index::index") and "RangeFull" in full) or nm.rsplit("::", 1)[-1] in ("as_slice", "as_bytes", "as_ref", "deref"):
                 o = t["args"][0]
                 continue
+            mb_ = re.search(r"num::<impl (u8|u16|u32|u64)>::to_(be|le)_bytes$", nm)
+            if mb_ and len(t["args"]) == 1:
+                kv = op_const(body.resolve_copy(t["args"][0]))
+                iv = const_int(kv) if kv is not None else None
+                if iv is not None and iv >= 0:
+                    return iv.to_bytes(int(mb_.group(1)[1:]) // 8, "big" if mb_.group(2) == "be" else "little")
             return None
         rv = d[3]
         if rv["k"] == "use" or rv["k"] == "cast":
             o = rv["o"]
         elif rv["k"] == "ref":
             inner = rv["p"]
+            if any(e != "*" for e in inner["p"]):
+                return None
             # &(*_x) where _x = const
             o = {"c": {"l": inner["l"], "p": []}}
+        elif rv["k"] == "agg" and rv["kind"].get("a") == "array" and rv["ops"] and re.match(r"^\[u8; \d+\]$", body.lty(p["l"]) or ""):
+            # a byte array written out element by element
+            vs = [const_int(op_const(body.resolve_copy(x))) if op_const(body.resolve_copy(x)) is not None else None for x in rv["ops"]]
+            if any(v is None or not (0 <= v < 256) for v in vs):
+                return None
+            return bytes(vs)
         else:
             return None
     return None
@@ -1188,6 +1202,13 @@ def out_tokens(b):
                 raw.append((order.get(c.bb, 10**6), "lit", kb, c.bb))
             else:
                 raw.append((order.get(c.bb, 10**6), "val", c.args[1], c.bb))
+        elif re.search(r"Vec::<u8(, .*)?>::push$|Vec::<T, A>::push$", n) and len(c.args) == 2 and "u8" in (c.full or n) + b.lty(op_place(c.args[1])["l"] if op_place(c.args[1]) else 0):
+            k1 = op_const(b.resolve_copy(c.args[1]))
+            v1 = const_int(k1) if k1 is not None else None
+            if v1 is not None and 0 <= v1 < 256:
+                raw.append((order.get(c.bb, 10**6), "lit", bytes([v1]), c.bb))
+            else:
+                raw.append((order.get(c.bb, 10**6), "val", c.args[1], c.bb))
         elif c.local and re.search(r"(Writer::write_\w+|write_cross_reference_stream|write_trailer)$", c.cname or ""):
             raw.append((order.get(c.bb, 10**6), "call", c.cname, c.bb))
     raw.sort(key=lambda t: t[0])
@@ -1301,3 +1322,46 @@ def nom_language(b, o, depth=10, limit=64):
     if short in ("map", "value", "recognize", "cut", "map_res", "map_opt", "verify") and args:
         return nom_language(b, args[-1] if short == "value" else args[0], depth - 1, limit)
     return None
+
+
+def sel_consts(b, l):
+    """A local that is assigned integer constants only, one in each arm of one two-way branch, renders as the conditional
+    expression it is: `sel(<then-value> if <cond> else <else-value>)`.  None when the local is anything else."""
+    import inv
+    ds = b.defs.get(l, [])
+    if len(ds) != 2 or any(d[2] != "rv" or d[3]["k"] != "use" or op_const(d[3]["o"]) is None for d in ds):
+        return None
+    vals = []
+    for d in ds:
+        v = const_int(op_const(d[3]["o"]))
+        if v is None:
+            return None
+        with b.alpha(args=True):
+            gs = [(b.sname(b.term(g)["d"], 6).replace("&", "").replace("*", ""), b.term(g)["else"] == s2, g)
+                  for g, s2 in taken_edges(b, d[0]) if b.term(g)["dty"] == "bool"]
+        vals.append((v, gs))
+    (v1, g1), (v2, g2) = vals
+    if not g1 or not g2 or g1[-1][2] != g2[-1][2] or g1[-1][1] == g2[-1][1] or g1[:-1] != g2[:-1]:
+        return None
+    cond = g1[-1][0]
+    t, e = (v1, v2) if g1[-1][1] else (v2, v1)
+    return "sel(%d if %s else %d)" % (t, cond, e)
+
+
+def handled_variants(b, enum_suffix):
+    """names of the variants of the enum (type name ending in enum_suffix) that some `match` in b gives an arm of their own
+    (a target different from the default one)."""
+    out = set()
+    for bi in range(b.n):
+        t = b.term(bi)
+        if t["k"] != "switch":
+            continue
+        p = op_place(t["d"])
+        d = b.single_def(p["l"]) if p is not None and not p["p"] else None
+        if not (d and d[2] == "rv" and d[3]["k"] == "discr" and (d[3].get("ety") or "").endswith(enum_suffix)):
+            continue
+        names = {str(v): n for v, n in d[3].get("vars", [])}
+        for v, x in t["tg"]:
+            if x != t["else"] and str(v) in names:
+                out.add(names[str(v)])
+    return out
